@@ -168,3 +168,17 @@ def is_str_value(x):
 
 def newer(a, b):
     return True
+
+
+class _World:
+    """native recording of the observable effects (see contracts/c_external.py: ghost object WORLD)"""
+    def __init__(self):
+        self.made, self.wpaths, self.wdata, self.out = [], [], [], []
+
+    def snapshot(self):
+        w = _World()
+        w.made, w.wpaths, w.wdata, w.out = list(self.made), list(self.wpaths), list(self.wdata), list(self.out)
+        return w
+
+
+WORLD = _World()
